@@ -2145,6 +2145,305 @@ fn exhaustive_small(max_nodes: usize) -> Vec<Case> {
 }
 
 
+
+// ------------------------------------------------------------------ value-level operator matrix (C02)
+
+/// every encoding that can hold the integer (sign, magnitude)
+fn int_encodings(neg: bool, m: u128) -> Vec<Value> {
+    let mut v = Vec::new();
+    if !neg || m == 0 {
+        if let Ok(x) = u64::try_from(m) {
+            v.push(Value::from(x));
+        }
+        v.push(Value::from(m));
+        if let Ok(x) = i64::try_from(m) {
+            v.push(Value::from(x));
+        }
+        if let Ok(x) = i128::try_from(m) {
+            v.push(Value::from(x));
+        }
+    } else {
+        if m <= 1u128 << 63 {
+            v.push(Value::from((m as i128).wrapping_neg() as i64));
+        }
+        if m <= 1u128 << 127 {
+            v.push(Value::from((m as i128).wrapping_neg()));
+        }
+    }
+    v
+}
+
+fn int_lattice() -> Vec<(bool, u128)> {
+    let mut out = vec![(false, 0u128), (false, 1), (true, 1), (false, 2), (true, 2), (false, 3), (true, 3)];
+    for m in [1u128 << 31, 1 << 32, (1 << 53) - 1, (1 << 53) + 1, (1 << 63) - 1, 1 << 63, 1 << 64, (1 << 127) - 1] {
+        out.push((false, m));
+    }
+    out.push((true, 1u128 << 63));
+    out.push((true, 1u128 << 127));
+    out.push((false, 1u128 << 127));
+    out
+}
+
+fn float_lattice() -> Vec<f64> {
+    vec![0.0, -0.0, 0.25, -0.25, 1.5, -1.5, 2.0, -2.0, 2.5, -2.5, 9007199254740992.0, 9223372036854775808.0, -9223372036854775808.0, 1.7014118346046923e38, f64::NAN, f64::INFINITY, f64::NEG_INFINITY]
+}
+
+fn as_exact_i128(neg: bool, m: u128) -> Option<i128> {
+    if !neg {
+        i128::try_from(m).ok()
+    } else if m <= i128::MAX as u128 {
+        Some(-(m as i128))
+    } else if m == 1u128 << 127 {
+        Some(i128::MIN)
+    } else {
+        None
+    }
+}
+
+/// what exact integer arithmetic gives: Some(Ok(result)) / Some(Err) = must be an error / None = not an integer result
+fn exact_int(op: &str, a: i128, b2: i128) -> Option<Result<i128, ()>> {
+    Some(match op {
+        "+" => a.checked_add(b2).ok_or(()),
+        "-" => a.checked_sub(b2).ok_or(()),
+        "*" => a.checked_mul(b2).ok_or(()),
+        "//" => {
+            if b2 == 0 || (a == i128::MIN && b2 == -1) { Err(()) } else { Ok(a.div_euclid(b2)) }
+        }
+        "%" => {
+            if b2 == 0 { Err(()) } else if b2 == -1 { Ok(0) } else { Ok(a.rem_euclid(b2)) }
+        }
+        "**" => {
+            if b2 < 0 {
+                return None;
+            }
+            match a {
+                0 => Ok(if b2 == 0 { 1 } else { 0 }),
+                1 => Ok(1),
+                -1 => Ok(if b2 % 2 == 0 { 1 } else { -1 }),
+                _ => if b2 > 127 { Err(()) } else { a.checked_pow(b2 as u32).ok_or(()) },
+            }
+        }
+        _ => return None,
+    })
+}
+
+/// exact order of a float and an integer (NaN after every number, as C13 prescribes)
+fn cmp_float_int(x: f64, neg: bool, m: u128) -> std::cmp::Ordering {
+    use std::cmp::Ordering::*;
+    if x.is_nan() {
+        return Greater;
+    }
+    if x.is_infinite() {
+        return if x > 0.0 { Greater } else { Less };
+    }
+    let xneg = x < 0.0;
+    let ineg = neg && m != 0;
+    match (xneg, ineg) {
+        (false, true) => return Greater,
+        (true, false) => return Less,
+        _ => {}
+    }
+    let ax = x.abs();
+    let mag = if ax >= 340282366920938463463374607431768211456.0 {
+        Greater
+    } else {
+        let t = ax.trunc() as u128;
+        match t.cmp(&m) {
+            Equal if ax.fract() != 0.0 => Greater,
+            o => o,
+        }
+    };
+    if xneg { mag.reverse() } else { mag }
+}
+
+fn cmp_int_int(a: (bool, u128), b2: (bool, u128)) -> std::cmp::Ordering {
+    use std::cmp::Ordering::*;
+    let an = a.0 && a.1 != 0;
+    let bn = b2.0 && b2.1 != 0;
+    match (an, bn) {
+        (false, false) => a.1.cmp(&b2.1),
+        (true, true) => b2.1.cmp(&a.1),
+        (true, false) => Less,
+        (false, true) => Greater,
+    }
+}
+
+fn cmp_float_float(x: f64, y: f64) -> std::cmp::Ordering {
+    use std::cmp::Ordering::*;
+    match (x.is_nan(), y.is_nan()) {
+        (true, true) => Equal,
+        (true, false) => Greater,
+        (false, true) => Less,
+        _ => x.partial_cmp(&y).unwrap(),
+    }
+}
+
+fn cmp_text(o: std::cmp::Ordering) -> String {
+    use std::cmp::Ordering::*;
+    format!("{}/{}/{}/{}/{}/{}", o == Less, o != Greater, o == Greater, o != Less, o == Equal, o != Equal)
+}
+
+const CMP_TPL: &str = "{{ a < b }}/{{ a <= b }}/{{ a > b }}/{{ a >= b }}/{{ a == b }}/{{ a != b }}";
+
+/// Value-level matrix: exact integer arithmetic, comparison by exact value, index / slice operand
+/// kinds, map lookup and membership by value across encodings — expectations computed here from the
+/// rule (exact arithmetic on i128/u128, never from the engine or the model)
+fn oracle_value_matrix(rng: &mut Rng, env: &Env, out: &mut Vec<Check>) {
+    let ints = int_lattice();
+    let mut int_vals: Vec<((bool, u128), Value)> = Vec::new();
+    for &(neg, m) in &ints {
+        for v in int_encodings(neg, m) {
+            int_vals.push(((neg, m), v));
+        }
+    }
+    let mk = |src: &str, ctx: Vec<(String, Value)>| simple_case("oracle.value_matrix", src, ctx, vec![]);
+    let keep = |rng: &mut Rng| rng.chance(env.budget(1, 4) as u32, 4);
+    // ---- exact integer arithmetic, every encoding pair
+    for (ia, a) in &int_vals {
+        for (ib, b2) in &int_vals {
+            if !keep(rng) {
+                continue;
+            }
+            let ctx = vec![("a".to_string(), a.clone()), ("b".to_string(), b2.clone())];
+            for op in ["+", "-", "*", "//", "%", "**"] {
+                let expect = match (as_exact_i128(ia.0, ia.1), as_exact_i128(ib.0, ib.1)) {
+                    (Some(x), Some(y)) => match exact_int(op, x, y) {
+                        Some(Ok(r)) => Expect::Text(r.to_string()),
+                        Some(Err(())) => Expect::AnyErr,
+                        None => continue,
+                    },
+                    // an operand that does not fit i128 must be an error, not a wrapped or float result
+                    _ => Expect::AnyErr,
+                };
+                out.push(Check { oracle: "value_matrix.exact_integer_arithmetic", case: mk(&format!("{{{{ a {op} b }}}}"), ctx.clone()), expect });
+            }
+            out.push(Check { oracle: "value_matrix.exact_comparison", case: mk(CMP_TPL, ctx.clone()), expect: Expect::Text(cmp_text(cmp_int_int(*ia, *ib))) });
+        }
+        // unary minus
+        let e = match as_exact_i128(ia.0, ia.1).and_then(|x| x.checked_neg()) {
+            Some(r) => Expect::Text(r.to_string()),
+            None => Expect::AnyErr,
+        };
+        out.push(Check { oracle: "value_matrix.exact_integer_arithmetic", case: mk("{{ -a }}", vec![("a".to_string(), a.clone())]), expect: e });
+    }
+    // literal forms of the pow corner cases and of a division that yields a float
+    for (src, e) in [
+        ("{{ 0 ** 4294967296 }}", Some("0")),
+        ("{{ 0 ** 4294967297 }}", Some("0")),
+        ("{{ 0 ** 0 }}", Some("1")),
+        ("{{ 1 ** 4294967296 }}", Some("1")),
+        ("{{ (-1) ** 4294967296 }}", Some("1")),
+        ("{{ (-1) ** 4294967297 }}", Some("-1")),
+        ("{{ (0 - 1) ** 1099511627777 }}", Some("-1")),
+        ("{{ 2 ** 4294967296 }}", None),
+        ("{{ 2 ** 127 }}", None),
+        ("{{ 2 ** 126 }}", Some("85070591730234615865843651857942052864")),
+        ("{{ (-2) ** 127 }}", Some("-170141183460469231731687303715884105728")),
+        ("{{ 4 / 2 }}", Some("2.0")),
+        ("{{ 7 // 2 }}/{{ -7 // 2 }}/{{ 7 % -2 }}/{{ -7 % 2 }}", Some("3/-4/1/1")),
+    ] {
+        out.push(Check { oracle: "value_matrix.exact_integer_arithmetic", case: mk(src, vec![]), expect: match e { Some(t) => Expect::Text(t.into()), None => Expect::AnyErr } });
+    }
+    // ---- comparison by exact value: floats against every integer encoding, both ways, and floats among themselves
+    let floats = float_lattice();
+    for x in &floats {
+        for (ib, b2) in &int_vals {
+            let o = cmp_float_int(*x, ib.0, ib.1);
+            out.push(Check { oracle: "value_matrix.exact_comparison", case: mk(CMP_TPL, vec![("a".to_string(), Value::from(*x)), ("b".to_string(), b2.clone())]), expect: Expect::Text(cmp_text(o)) });
+            out.push(Check { oracle: "value_matrix.exact_comparison", case: mk(CMP_TPL, vec![("a".to_string(), b2.clone()), ("b".to_string(), Value::from(*x))]), expect: Expect::Text(cmp_text(o.reverse())) });
+        }
+        for y in &floats {
+            out.push(Check { oracle: "value_matrix.exact_comparison", case: mk(CMP_TPL, vec![("a".to_string(), Value::from(*x)), ("b".to_string(), Value::from(*y))]), expect: Expect::Text(cmp_text(cmp_float_float(*x, *y))) });
+        }
+    }
+    for (src, e) in [
+        ("{{ -1.5 < -1 }}/{{ -1.5 <= -2 }}/{{ -1 > -1.5 }}/{{ -2 < -1.5 }}", "true/false/true/true"),
+        ("{{ (0 - 1.5) < (0 - 1) }}/{{ (3 / -2) < -1 }}/{{ (-5 / 2) > -3 }}/{{ (-5 / 2) < -2 }}", "true/true/true/true"),
+        ("{{ -0.25 < 0 }}/{{ -0.25 > -1 }}/{{ 0.25 > 0 }}/{{ -0.0 == 0 }}", "true/true/true/true"),
+        ("{% for z in [5] %}{{ loop.index > 0.5 }}/{{ loop.index0 > -0.5 }}/{{ -0.5 < loop.index0 }}{% endfor %}", "true/true/true"),
+    ] {
+        out.push(Check { oracle: "value_matrix.exact_comparison", case: mk(src, vec![]), expect: Expect::Text(e.into()) });
+    }
+    // ---- index / slice operands: integers of every encoding work by value; a float (integral or not) is an error
+    let seq_ctx = |extra: Vec<(String, Value)>| {
+        let mut c = vec![
+            ("xs".to_string(), Value::from(vec![Value::from("a"), Value::from("b"), Value::from("c")])),
+            ("st".to_string(), Value::from("xyz")),
+        ];
+        c.extend(extra);
+        c
+    };
+    for (iv, v) in &int_vals {
+        let idx: Option<i128> = as_exact_i128(iv.0, iv.1);
+        let norm = idx.map(|i| if i < 0 { i + 3 } else { i });
+        let e = match norm {
+            Some(i) if (0..3).contains(&i) => format!("{}/{}/true", ["a", "b", "c"][i as usize], ["x", "y", "z"][i as usize]),
+            _ => "~/~/false".to_string(),
+        };
+        out.push(Check {
+            oracle: "value_matrix.index_by_value",
+            case: mk("{{ xs[i] | default(value=\"~\") }}/{{ st[i] | default(value=\"~\") }}/{{ xs[i] is defined }}", seq_ctx(vec![("i".to_string(), v.clone())])),
+            expect: Expect::Text(e),
+        });
+    }
+    for x in &floats {
+        for src in ["{{ xs[f] is defined }}", "{{ st[f] is defined }}", "{{ xs[f:] }}", "{{ xs[:f] }}", "{{ xs[::f] }}", "{{ st[f:] }}", "{{ xs?[f] is defined }}"] {
+            out.push(Check { oracle: "value_matrix.float_index_is_error", case: mk(src, seq_ctx(vec![("f".to_string(), Value::from(*x))])), expect: Expect::AnyErr });
+        }
+    }
+    for src in ["{{ xs[1.0] }}", "{{ xs[4 / 2] }}", "{{ xs[2.0:] }}", "{{ xs[:4 / 2] }}", "{{ st[1.0] }}", "{{ xs[(2 * 0.5)] }}", "{{ xs[1:3:1.0] }}", "{{ xs[-0.0] }}", "{{ xs[\"1\"] }}", "{{ xs[true] }}", "{{ xs[none] }}", "{{ xs[[0]] }}"] {
+        out.push(Check { oracle: "value_matrix.float_index_is_error", case: mk(src, seq_ctx(vec![])), expect: Expect::AnyErr });
+    }
+    for (src, e) in [("{{ xs[4 // 2] }}", "c"), ("{{ xs[3 - 2] }}", "b"), ("{{ xs[-1] }}", "c"), ("{% for z in [0] %}{{ xs[loop.index] }}{{ xs[loop.index0] }}{% endfor %}", "ba"), ("{{ xs[1:] }}|{{ xs[:-1] }}|{{ xs[::-1] }}|{{ st[1:2] }}", "[\"b\", \"c\"]|[\"a\", \"b\"]|[\"c\", \"b\", \"a\"]|y")] {
+        out.push(Check { oracle: "value_matrix.index_by_value", case: mk(src, seq_ctx(vec![])), expect: Expect::Text(e.into()) });
+    }
+    // ---- map lookup and membership by value across key and operand encodings
+    use tera::value::Key;
+    let key_encodings = |n: i64| -> Vec<Key<'static>> {
+        let mut v = vec![Key::I64(n), Key::I128(n as i128)];
+        if n >= 0 {
+            v.push(Key::U64(n as u64));
+            v.push(Key::U128(n as u128));
+        }
+        v
+    };
+    for k1 in key_encodings(1) {
+        for kneg in key_encodings(-1) {
+            let mut m = tera::Map::new();
+            m.insert(k1.clone(), Value::from("one"));
+            m.insert(kneg.clone(), Value::from("neg"));
+            m.insert(Key::from("s".to_string()), Value::from("str"));
+            for (_, probe) in int_vals.iter().filter(|(iv, _)| iv.1 == 1) {
+                let want = if probe.as_i128() == Some(1) { "one" } else { "neg" };
+                out.push(Check {
+                    oracle: "value_matrix.map_lookup_by_value",
+                    case: mk("{{ m[k] }}/{{ k in m }}/{{ k not in m }}/{{ m[(k + 0)] }}/{{ (k * 2) in m }}", vec![("m".to_string(), Value::from(m.clone())), ("k".to_string(), probe.clone())]),
+                    expect: Expect::Text(format!("{want}/true/false/{want}/false")),
+                });
+            }
+            out.push(Check {
+                oracle: "value_matrix.map_lookup_by_value",
+                case: mk("{{ m[1] }}/{{ m[-1] }}/{{ m[2 - 1] }}/{{ 1 in m }}/{{ 2 in m }}/{% for z in [0] %}{{ m[loop.index] }}/{{ loop.index in m }}/{{ m[loop.index0 - 1] }}{% endfor %}/{{ m[\"s\"] }}/{{ m.s }}", vec![("m".to_string(), Value::from(m.clone()))]),
+                expect: Expect::Text("one/neg/one/true/false/one/true/neg/str/str".into()),
+            });
+            // a float is not a key
+            for src in ["{{ m[1.0] }}", "{{ m[2 / 2] }}", "{{ m[none] }}", "{{ m[[1]] }}"] {
+                out.push(Check { oracle: "value_matrix.map_lookup_by_value", case: mk(src, vec![("m".to_string(), Value::from(m.clone()))]), expect: Expect::AnyErr });
+            }
+        }
+    }
+    // a map literal written in the template, looked up with every operand encoding
+    for (_, probe) in int_vals.iter().filter(|(iv, _)| *iv == (false, 1) || *iv == (false, 2)) {
+        let want = if probe.as_u128() == Some(1) { "a" } else { "b" };
+        out.push(Check {
+            oracle: "value_matrix.map_lookup_by_value",
+            case: mk("{% set lit = {1: \"a\", 2: \"b\"} %}{{ lit[k] }}/{{ k in lit }}/{{ k in [1, 2] }}/{{ (k + 2) in lit }}", vec![("k".to_string(), probe.clone())]),
+            expect: Expect::Text(format!("{want}/true/true/false")),
+        });
+    }
+    out.push(Check { oracle: "value_matrix.map_lookup_by_value", case: mk("{% set by_id = {1: \"a\", 2: \"b\"} %}{% for x in [7, 8] %}{{ by_id[loop.index] }}{{ loop.index in by_id }}{% endfor %}", vec![]), expect: Expect::Text("atruebtrue".into()) });
+}
+
 // ------------------------------------------------------------------ inheritance (C04 on the evaluator)
 
 /// One definition of a block in a marker family: its own text, where `{{ super() }}` sits
@@ -2930,6 +3229,9 @@ pub fn run(prop: &str) {
             oracle_lazy_paths(&mut rng, &mut fixed);
         }
         oracle_undefined_matrix(&mut fixed);
+        if c02 {
+            oracle_value_matrix(&mut rng, &env, &mut fixed);
+        }
     }
     report.count_n("oracle.fixed_checks", fixed.len() as u64);
 
